@@ -143,6 +143,17 @@ func paramsFor(r *rng.R, seed uint64) Params {
 	if p.Witnesses > 0 && r.Intn(3) == 0 {
 		p.ETH = EthOption(int64(200+r.Intn(600)), int64(200+r.Intn(600)))
 	}
+	// every fourth genesis belongs to the fork family: the Frankenstein update (OLVM on, minimal
+	// self delegation 500000) happens at an early block, the genesis validators stake enough to
+	// survive it, and three Ethereum-keyed accounts are funded
+	if r.Intn(4) == 0 {
+		p.Frankenstein = int64(1 + r.Intn(5))
+		p.NEth = 3
+		p.GenesisStake = nil
+		for i := 0; i < p.NVals; i++ {
+			p.GenesisStake = append(p.GenesisStake, int64(500000+100000*r.Intn(4)+i))
+		}
+	}
 	return p
 }
 
